@@ -13,7 +13,8 @@ statement shapes raises `Unsupported` naming the statement - never a silent defa
         that calls `f(local_id)` in a size loop tags the rows with that id; `m_evt_header_data[k].push_back(read())` is header word k
   * `fill_digi`                                               -> `fillDigiCpp` + one definition per extracted field (with EVERY narrowing
         conversion `uint16_t x = …` / push into a `uint8_t` column emitted as `% 65536` / `% 256`; the tie proves them harmless)
-  * `arrays()` (selection loop, first `fill_offsets()`, `while ( m_cursor < m_data_end ) read_event();`), `py_read_bes_raw` (default
+  * `arrays()` (selection loop, first `fill_offsets()`, `while ( m_cursor < m_data_end ) read_event();`, the conversion of the member
+        vectors into the returned dict -> `headerKeys`, `columnWiring`, `rawWiring`, `offsetsWiring`), `py_read_bes_raw` (default
         selection), the constructor (cursor at the first word, end = one past the last) -> `readEventsCpp`, `effectiveSelCpp`, `parseCpp`
   * the `RawFlag` / `SubDetID` enums                           -> `flag_*`, `id_*`
 
@@ -512,6 +513,17 @@ def parse_header(src_hh: str) -> dict:
     if len(m) != 1:
         raise Unsupported("raw_io.hh: `std::array<std::vector<uint32_t>, N> m_evt_header_data;` not found")
     hh["n_header"] = int(m[0])
+    m = re.findall(r"const std :: vector < std :: string > evt_header_item_names = \{ (.*?) \} ;", c)
+    if len(m) != 1:
+        raise Unsupported("raw_io.hh: `const std::vector<std::string> evt_header_item_names = { … };` not found exactly once")
+    hh["header_names"] = []
+    for part in [x.strip() for x in m[0].split(",") if x.strip()]:
+        mm = re.fullmatch(r"\"(\w+)\"", part)
+        if not mm:
+            raise Unsupported(f"raw_io.hh: evt_header_item_names element `{part}`")
+        hh["header_names"].append(mm.group(1))
+    if len(hh["header_names"]) != hh["n_header"] or len(set(hh["header_names"])) != hh["n_header"]:
+        raise Unsupported(f"raw_io.hh: evt_header_item_names has {len(hh['header_names'])} (distinct?) names for {hh['n_header']} header vectors")
     if "std :: set < uint32_t > m_activated_sub_det_ids ;" not in c:
         raise Unsupported("raw_io.hh: `std::set<uint32_t> m_activated_sub_det_ids;` not found")
     for decl in ("const uint32_t * m_data_end ;", "uint32_t * m_cursor ;"):
@@ -1461,12 +1473,127 @@ class Tr:
             if got != w:
                 raise Unsupported(f"arrays: statement {k + 1} is `{got}`; expected {d}: `{w}`"
                                   + (" - any other loop condition would dereference the cursor at or past the end, or stop early" if k == 3 else ""))
-        for st in body[5:]:
-            t = show(st)
-            for bad in ("m_cursor", "read_event", "read_sub_detector", "read_ROS", "read_ROB", "fill_digi", "fill_offsets", "skip", "push_back", "insert", "erase"):
-                if re.search(r"(?<![\w.])" + bad + r"\b", t):
-                    raise Unsupported(f"arrays: the conversion part after the event loop mentions `{bad}`: {t[:120]}")
-        self.info["notes"].append("arrays(): the numpy conversion after `py::gil_scoped_acquire` is not translated (it only wraps the member vectors)")
+        self.translate_output(body[5:])
+
+    def translate_output(self, tail):
+        """the part of arrays() after the event loop: which member vector is returned under which key, with which dtype"""
+        W = "arrays (conversion)"
+        DT = {"uint8_t": "u8", "uint16_t": "u16", "uint32_t": "u32"}
+        texts = [show(st) for st in tail]
+        want_head = [
+            "py :: dict res ;",
+            "py :: dict evt_header ;",
+            "for ( size_t i = 0 ; i < m_evt_header_data . size ( ) ; i ++ ) { "
+            "auto np_data = py :: array_t < uint32_t > ( m_evt_header_data [ i ] . size ( ) , m_evt_header_data [ i ] . data ( ) ) ; "
+            "evt_header [ evt_header_item_names [ i ] . c_str ( ) ] = np_data ; }",
+            "res [ \"evt_header\" ] = evt_header ;",
+        ]
+        for k, w in enumerate(want_head):
+            got = texts[k] if k < len(texts) else "<nothing>"
+            if got != w:
+                raise Unsupported(f"{W}: statement `{got[:200]}`; expected `{w}` (event-header dict: key i = evt_header_item_names[i], value = m_evt_header_data[i] as uint32)")
+        if len(tail) != 6 or texts[5] != "return res ;":
+            raise Unsupported(f"{W}: expected the sub-detector loop followed by `return res;`, found {texts[4:]}")
+        loop = tail[4]
+        if not (loop[0] == "for" and canon(loop[1]) == "auto & sub_det_id : m_activated_sub_det_ids" and len(loop[2]) == 1
+                and loop[2][0][0] == "switch" and canon(loop[2][0][1]) == "sub_det_id"):
+            raise Unsupported(f"{W}: `{texts[4][:160]}` is not `for ( auto& sub_det_id : m_activated_sub_det_ids ) {{ switch ( sub_det_id ) {{ … }} }}`")
+        items = loop[2][0][2]
+        if len(items) % 2:
+            raise Unsupported(f"{W}: the switch is not a sequence of `case SubDetID::X: {{ … }}`")
+        arr = r"py :: array_t < (uint8_t|uint16_t|uint32_t) > \( (\w+) \. size \( \) , (\w+) \. data \( \) \)"
+        arrdecl = r"py :: array_t < (uint8_t|uint16_t|uint32_t) > (\w+) \( (\w+) \. size \( \) , (\w+) \. data \( \) \)"
+
+        def same(a, b, what):
+            if a != b:
+                raise Unsupported(f"{W}: {what}: `.size()` of `{a}` with `.data()` of `{b}` (length and buffer of two different vectors)")
+            return a
+        cols_out, raws_out, offs_out, seen = [], [], [], []
+        name_of = {v: k for k, v in self.hh["names"].items()}
+        for k in range(0, len(items), 2):
+            lab, blk = items[k], items[k + 1]
+            m = re.fullmatch(r"case SubDetID :: (\w+)", canon(lab[1])) if lab[0] == "label" else None
+            if not m or blk[0] != "block":
+                raise Unsupported(f"{W}: `{show(lab)} {show(blk)[:80]}` is not `case SubDetID::X: {{ … }}`")
+            det = m.group(1)
+            if det in seen or det not in name_of:
+                raise Unsupported(f"{W}: case SubDetID::{det} twice / not a selectable sub-detector")
+            seen.append(det)
+            where = f"{W}, case {det}"
+            low, key = det.lower(), name_of[det]
+            member, offv = f"m_{low}_data", f"m_{low}_offsets"
+            sts = [show(x)[:-2] for x in blk[1]]
+            if not sts or sts[-1] != "break":
+                raise Unsupported(f"{where}: the case does not end in `break;` (it would fall through)")
+            sts = sts[:-1]
+            if self.hh["vectors"].get(offv) != "u32":
+                raise Unsupported(f"{where}: raw_io.hh has no `std::vector<uint32_t> {offv};`")
+
+            def offsets_decl(text):
+                mm = re.fullmatch(arrdecl, text)
+                if not mm:
+                    raise Unsupported(f"{where}: `{text} ;` is not the offsets array `py::array_t<uint32_t> o( {offv}.size(), {offv}.data() )`")
+                v = same(mm.group(3), mm.group(4), "offsets array")
+                if v != offv or mm.group(1) != "uint32_t":
+                    raise Unsupported(f"{where}: offsets array built from `{v}` as {mm.group(1)} (expected `{offv}`, the vector fill_offsets() fills for {det}, as uint32_t)")
+                return mm.group(2)
+            if member in self.hh["tuples"]:
+                elems = self.hh["tuples"][member]
+                if len(sts) < 4:
+                    raise Unsupported(f"{where}: too few statements")
+                b = BIND_DECL.fullmatch(sts[0])
+                if not b or b.group(2) != member or len(b.group(1).split(",")) != len(elems):
+                    raise Unsupported(f"{where}: `{sts[0]} ;` is not the structured binding of all columns of {member}")
+                bound = [x.strip() for x in b.group(1).split(",")]
+                if len(set(bound)) != len(bound):
+                    raise Unsupported(f"{where}: structured binding with a repeated name")
+                d = re.fullmatch(r"py :: dict (\w+)", sts[1])
+                if not d:
+                    raise Unsupported(f"{where}: `{sts[1]} ;` is not `py::dict name;`")
+                dname, wiring, used = d.group(1), [], {}
+                for text in sts[2:-2]:
+                    mm = re.fullmatch(re.escape(dname) + r" \[ \"(\w+)\" \] = " + arr, text)
+                    if not mm:
+                        raise Unsupported(f"{where}: `{text} ;` is not `{dname}[\"key\"] = py::array_t<T>( v.size(), v.data() );`")
+                    dkey, dt = mm.group(1), DT[mm.group(2)]
+                    v = same(mm.group(3), mm.group(4), f"key \"{dkey}\"")
+                    if v not in bound:
+                        raise Unsupported(f"{where}: key \"{dkey}\" is built from `{v}`, which is not one of the vectors bound from {member}")
+                    if v in used:
+                        raise Unsupported(f"{where}: `{v}` is returned under two keys (\"{used[v]}\" and \"{dkey}\")")
+                    if dkey in used.values():
+                        raise Unsupported(f"{where}: key \"{dkey}\" assigned twice")
+                    used[v] = dkey
+                    pos = bound.index(v)
+                    if dt != elems[pos]:
+                        raise Unsupported(f"{where}: key \"{dkey}\": `py::array_t<{mm.group(2)}>` over `{v}`, whose element type in raw_io.hh (position {pos} of {member}) is {elems[pos]}"
+                                          " (the buffer would be reinterpreted)")
+                    wiring.append((dkey, pos, BITS[dt]))
+                oname = offsets_decl(sts[-2])
+                want = f"res [ \"{key}\" ] = py :: make_tuple ( {oname} , {dname} )"
+                if sts[-1] != want:
+                    raise Unsupported(f"{where}: `{sts[-1]} ;` (expected `{want} ;`: result key = the name sub_det_names_to_ids maps to {det}, value = (offsets, columns))")
+                cols_out.append((key, wiring))
+            else:
+                if self.hh["vectors"].get(member) != "u32" or len(sts) != 3:
+                    raise Unsupported(f"{where}: expected data array, offsets array and `res[\"{key}\"] = py::make_tuple( offsets, data );` over std::vector<uint32_t> {member}")
+                mm = re.fullmatch(arrdecl, sts[0])
+                if not mm:
+                    raise Unsupported(f"{where}: `{sts[0]} ;` is not `py::array_t<uint32_t> d( {member}.size(), {member}.data() )`")
+                v = same(mm.group(3), mm.group(4), "data array")
+                if v != member or mm.group(1) != "uint32_t":
+                    raise Unsupported(f"{where}: data array built from `{v}` as {mm.group(1)} (expected `{member}` as uint32_t)")
+                oname = offsets_decl(sts[1])
+                want = f"res [ \"{key}\" ] = py :: make_tuple ( {oname} , {mm.group(2)} )"
+                if sts[2] != want:
+                    raise Unsupported(f"{where}: `{sts[2]} ;` (expected `{want} ;`)")
+                raws_out.append((key, 32))
+            offs_out.append((key, offv))
+        missing = sorted(set(name_of) - set(seen))
+        if missing:
+            raise Unsupported(f"{W}: no case for the selectable sub-detector(s) {missing}: selected, decoded, but never returned")
+        self.info["output"] = {"header_keys": self.hh["header_names"], "columns": cols_out, "raw": raws_out, "offsets": offs_out}
+        return cols_out, raws_out, offs_out
 
     def translate_entry(self):
         fn = self.fns.get(("py_read_bes_raw", 2))
@@ -1563,6 +1690,20 @@ def parseCpp (sel : List Nat) (ws : List Nat) : Res (List EventRec) :=
 
 /-- `sub_det_names_to_ids` -/
 def subDetNames : List (String × Nat) := [{', '.join(f'("{n}", id_{d})' for n, d in tr.hh['names'].items())}]
+
+/-- `arrays()`, event-header dict: key i is `evt_header_item_names[i]`, value `m_evt_header_data[i]` (uint32) -/
+def headerKeys : List String := [{', '.join('"' + n + '"' for n in tr.hh['header_names'])}]
+
+/-- `arrays()`, sub-detector cases with a column dict: result key ↦ ordered (dict key, position of the returned vector in the member tuple =
+index into the model's `Row`, element width in bits = dtype of the array = element type of that tuple position) -/
+def columnWiring : List (String × List (String × Nat × Nat)) :=
+  [{', '.join('("' + k + '", [' + ', '.join(f'("{d}", {p}, {b})' for d, p, b in w) + '])' for k, w in tr.info['output']['columns'])}]
+
+/-- `arrays()`, sub-detector cases returning the raw words: result key ↦ element width; the value is `(offsets, data)` -/
+def rawWiring : List (String × Nat) := [{', '.join(f'("{k}", {b})' for k, b in tr.info['output']['raw'])}]
+
+/-- `arrays()`: result key ↦ the offsets vector returned with it (the one `fill_offsets()` fills for that sub-detector), as uint32 -/
+def offsetsWiring : List (String × String) := [{', '.join(f'("{k}", "{o}")' for k, o in tr.info['output']['offsets'])}]
 
 /-- `fill_offsets()` pushes, for every activated sub-detector, the current number of rows (`std::get<0>( m_x_data ).size()` resp.
 `m_x_data.size()`); it is called once before the event loop and once at the end of every `read_event` -/
